@@ -41,6 +41,7 @@ def big(b):
 
 # ----------------------------------------------------------------------------- scripted handlers
 EVENTS = {}         # rendezvous key -> threading.Event
+CONN_TIMEOUT = [None]   # timeout http.server put on the connection socket of the last finished request (None = none)
 SCRIPTS = {}        # uri -> case
 RECORDS = {}        # client port -> (status lines produced, bytes left in _headers_buffer)
 
@@ -235,7 +236,8 @@ class ScriptHandler(S.HttpRequestHandler):
         return context["can"]
 
     def handle(self, request_info, body, context):
-        n = int(request_info.headers.get("Content-Length", "0") or 0)
+        cl = request_info.headers.get("Content-Length", "0") or "0"
+        n = int(cl) if cl.isdigit() else 0
         if n:
             body.read(n)
         act = context["act"]
@@ -284,6 +286,10 @@ def _instrument():
     def finish(self):
         left = len(b"".join(getattr(self, "_headers_buffer", []) or []))
         RECORDS[self.client_address[1]] = (getattr(self, "_verif_n", 0), left)
+        try:
+            CONN_TIMEOUT[0] = self.connection.gettimeout()
+        except Exception:          # noqa
+            pass
         return orig_finish(self)
     cls.send_response_only = send_response_only
     cls.finish = finish
@@ -310,7 +316,11 @@ def server_port():
 
 def request_bytes(c):
     body = c.get("reqbody", b"")
-    head = "%s %s HTTP/1.%d\r\nHost: verif\r\n" % (c["method"], c["path"], c.get("version", 0))
+    head = "%s %s HTTP/1.%d\r\n" % (c["method"], c["path"], c.get("version", 0))
+    hdrs = c.get("reqheaders")
+    if hdrs is None:
+        hdrs = [("Host", "verif")]
+    head += "".join("%s: %s\r\n" % kv for kv in hdrs)
     if c["method"] in ("POST", "PUT") or body:
         head += "Content-Length: %d\r\n" % len(body)
     return head.encode("latin-1") + b"\r\n" + body
@@ -466,10 +476,10 @@ class C03(Check):
     def __init__(self):
         self._seq = itertools.count()
 
-    def mk(self, method, handlers, path=None, version=0, reqbody=b""):
+    def mk(self, method, handlers, path=None, version=0, reqbody=b"", reqheaders=None, loglevel=None):
         i = next(self._seq)
         return {"method": method, "path": path if path is not None else "/c/%d" % i, "handlers": handlers,
-                "version": version, "reqbody": reqbody}
+                "version": version, "reqbody": reqbody, "reqheaders": reqheaders, "loglevel": loglevel}
 
     def survives_faulty_handlers(self):
         """history on the ONE long-lived server: many requests whose handler raises (or returns garbage), ordinary
@@ -573,6 +583,29 @@ class C03(Check):
         yield self.mk("GET", [handler(act=(200, [("Date", "a"), ("date", "b"), ("DATE", "c"), ("Server", "d"), ("server", "e")], (b"12345", False)))])
         yield self.mk("GET", [handler(act=(404, [("Content-Type", "a"), ("content-type", "b"), ("Content-Length", "5"), ("Connection", "close")],
                                            (b"12345", False)))])
+        # REQUEST headers the handler result does not depend on: Host in every legal and odd form, none, repeated;
+        # other headers a server-side convenience might parse
+        hosts = ["verif", "[::1]:8080", "[fd00::2]", "[::1]", "[fe80::1%25eth0]:80", "example.org:8080", "example.org:", "example.org:http",
+                 ":80", "example.org:99999", "example.org:-1", "", " ", "a" * 300, "xn--bcher-kva.example", "b\u00fccher.example", "127.0.0.1:0",
+                 "[::ffff:127.0.0.1]:80", "host:80:80", "user@host:80"]
+        for hv in hosts:
+            for m, st, b in (("GET", 200, (b"hosted", False)), ("HEAD", 404, None), ("POST", 200, (b"posted", False))):
+                yield self.mk(m, [handler(act=(st, H(1), b))], reqheaders=[("Host", hv)])
+        for rh in ([], [("Host", "a"), ("Host", "[::1]:1")], [("host", "[::1]:8080"), ("X-Forwarded-Host", "[::2]:1")],
+                   [("Host", "verif"), ("Content-Length", "abc")], [("Host", "verif"), ("Content-Length", "-1")],
+                   [("Host", "verif"), ("Accept-Encoding", "gzip;q=x"), ("Range", "bytes=a-b"), ("If-Modified-Since", "yesterday"),
+                    ("Cookie", "a=b; c"), ("Authorization", "Basic !!!"), ("User-Agent", ""), ("Accept-Language", "\xff")],
+                   [("Host", "verif"), ("X-Forwarded-For", "[::1]:x, unknown"), ("Forwarded", "for=\"[::1]:80\";proto=:"), ("Via", "1.0 :")]):
+            yield self.mk("GET", [handler(act=(200, H(2), (b"rh", False)))], reqheaders=rh)
+            yield self.mk("GET", [handler(can=False)], reqheaders=rh)
+            yield self.mk("GET", [handler(act=None, exc=("ValueError", 0))], reqheaders=rh)
+        # the same answers at every logging level of the server module
+        for lvl in (logging.DEBUG, logging.INFO, logging.ERROR):
+            for m in METHODS:
+                yield self.mk(m, [handler(act=(200, H(1), (SMALL, False)))], loglevel=lvl, path="/c/l\\og%%09name%d" % next(self._seq))
+            yield self.mk("GET", [handler(act=None, exc=("RuntimeError", 1))], loglevel=lvl)
+            yield self.mk("GET", [handler(can=False)], loglevel=lvl)
+            yield self.mk("GET", [handler(act=(404, None, None))], loglevel=lvl, path="c/bad%d" % next(self._seq))
         # legal values at and beyond natural limits: long header values, many headers, every token character in a name,
         # long paths, the extreme status codes
         yield self.mk("GET", [handler(act=(200, [("X-Long", "v" * 8190), ("X-Longer", "w" * 70000)], (b"b", False)))])
@@ -671,7 +704,14 @@ class C03(Check):
 
     # -- real code
     def impl(self, c):
-        raw, n, left = do_request(c)
+        lg = logging.getLogger("vinegar.http.server")
+        old = lg.level
+        if c.get("loglevel"):                    # the logging level is configuration: the response must not depend on it
+            lg.setLevel(c["loglevel"])
+        try:
+            raw, n, left = do_request(c)
+        finally:
+            lg.setLevel(old)
         return (raw, n, left)
 
     def table(self, c):
@@ -739,7 +779,8 @@ class C03(Check):
                     "raises": None if h.get("exc") is None else ("handle returns a 2-tuple" if h["exc"] == "badresult" else
                                                                 [h["exc"][0], EXC_MESSAGES[h["exc"][1] % len(EXC_MESSAGES)]])}
         return {"method": c["method"], "path": c["path"], "http_version": "1.%d" % c.get("version", 0),
-                "handlers": [sh(h) for h in c["handlers"]]}
+                "request_headers": c.get("reqheaders") if c.get("reqheaders") is not None else [["Host", "verif"]],
+                "server_log_level": c.get("loglevel"), "handlers": [sh(h) for h in c["handlers"]]}
 
     def shrink(self, c):
         hs = c["handlers"]
@@ -859,6 +900,19 @@ class C03(Check):
                 if f is not None:
                     fails.append(f)
                     break
+        # (5) a client that stops reading for a while in the middle of a large body and then goes on: the whole body
+        #     arrives. Real wall-clock time: quick stalls 2.5 s - or, when http.server was seen to put a timeout T <= 30 s
+        #     on the connection socket, T + 1.5 s; thorough stalls at least 12 s. Longer server-side limits are not reached.
+        if not fails:
+            t = CONN_TIMEOUT[0]
+            stall = 2.5 if self.tier == "quick" else 12.0
+            if isinstance(t, (int, float)) and t <= 30:
+                stall = max(stall, t + 1.5)
+            f = self.stalled_reader(stall)
+            report["extra"]["concurrency_probes"] += 1
+            report["extra"]["stalled_reader_s"] = stall
+            if f is not None:
+                fails.append(f)
         if fails:
             report["impl_failures"] += len(fails)
             report.setdefault("extra_failing", []).extend(fails)
@@ -904,6 +958,41 @@ class C03(Check):
                                               % (n, len(halves)),
                      "deadline_s": deadline, "waited_s": round(waited, 2), "held_requests_answered_after_release": ok_held},
                     ["keeps_answering_concurrent_requests"], common._jsonable(p), None)
+        return None
+
+    def stalled_reader(self, stall):
+        body = (b"S" * 4095 + b"\n") * (16 * 256)             # 16 MiB: more than the socket buffers hold
+        c = self.mk("GET", [handler(act=(200, H(1), (body, False)))])
+        SCRIPTS[c["path"]] = c
+        a = socket.socket(socket.AF_INET6, socket.SOCK_STREAM)
+        a.setsockopt(socket.SOL_SOCKET, socket.SO_RCVBUF, 4096)
+        a.settimeout(20.0)
+        me = 0
+        try:
+            a.connect(("::1", server_port()))
+            me = a.getsockname()[1]
+            a.sendall(request_bytes(c))
+            first = a.recv(4096)
+            time.sleep(stall)                                 # the server is blocked in sendall all this time
+            chunks = [first]
+            try:
+                while True:
+                    d = a.recv(1 << 20)
+                    if not d:
+                        break
+                    chunks.append(d)
+            except OSError as ex:
+                chunks.append(b"<%s>" % type(ex).__name__.encode())
+            raw = b"".join(chunks)
+        finally:
+            a.close()
+            SCRIPTS.pop(c["path"], None)
+            RECORDS.pop(me, None)
+        p = parse_strict(raw)
+        if p is None or p[0] != 200 or p[3] != body:
+            got = len(p[3]) if p else len(raw)
+            return ({"_extra": True, "probe": "one client reads the first 4 KiB of a 16 MiB body, stops reading for %.1f s, then reads the rest" % stall,
+                     "body_bytes_received": got, "body_bytes_sent": len(body)}, ["body"], None, None)
         return None
 
     def interleaved_bodies(self, mib):
